@@ -498,6 +498,8 @@ pub struct GenParams {
     pub nsyms: usize,
     pub extra_phdrs: usize,
     pub dup_kinds: bool,
+    /// e_shoff != 0, e_shnum == 0 and shdr[0].sh_size == 0: a present-but-empty table
+    pub xnum_zero: bool,
 }
 
 impl GenParams {
@@ -564,6 +566,7 @@ impl GenParams {
             },
             extra_phdrs: rng.urange(0, 3),
             dup_kinds: rng.chance(1, 12),
+            xnum_zero: rng.chance(1, 14),
         }
     }
 
@@ -602,6 +605,7 @@ impl GenParams {
             .with("xnum_sh", J::Bool(self.xnum_sh))
             .with("xnum_ph", J::Bool(self.xnum_ph))
             .with("xindex", J::Bool(self.xindex))
+            .with("xnum_zero", J::Bool(self.xnum_zero))
             .with("no_shstrtab", J::Bool(self.no_shstrtab))
             .with("max_pad", J::u(self.max_pad as u64))
             .with("nsyms", J::u(self.nsyms as u64))
@@ -632,7 +636,7 @@ impl GenParams {
                 v |= 1 << i;
             }
         }
-        v | ((self.layout as u64) << 16) | ((self.notes.min(3) as u64) << 18)
+        v | ((self.layout as u64) << 16) | ((self.notes.min(3) as u64) << 18) | ((self.xnum_zero as u64) << 20)
     }
 }
 
@@ -1136,6 +1140,10 @@ pub fn build(rng: &mut Rng, p: &GenParams) -> Vec<u8> {
     if nsec > 0 {
         if p.xnum_sh {
             shdr0.size = nsec as u64;
+            e_shnum = 0;
+        }
+        if p.xnum_zero {
+            shdr0.size = 0;
             e_shnum = 0;
         }
         if p.xnum_ph && nph > 0 {
